@@ -225,8 +225,10 @@ def files(ck, prop, tmp, n):
         nrec = rng.choice([1, 2, 3, 5, 8, 13, 25]) if rng.random() < 0.9 else rng.randint(60, 150)
         lines = []
         utf8 = rng.random()     # one file in five carries multi-byte UTF-8 read names (characters != bytes)
+        offref = [sg["id"] for sg in g.segs if sg["SR"] != 0]
+        only_offref = bool(offref) and rng.random() < 0.08      # a GAF none of whose alignments touches a reference node
         for k in range(nrec):
-            w = gen.walk(rng, g, adj, maxsteps=5)
+            w = gen.walk(rng, g, adj, maxsteps=5) if not only_offref else [(rng.choice(offref), rng.choice("+-"))]
             refs = {g.seg(nm)["SN"] for nm, o in w if g.seg(nm)["SR"] == 0}
             if len(refs) > 1:
                 continue  # two reference contigs on one path: outside the quantifier
@@ -237,16 +239,17 @@ def files(ck, prop, tmp, n):
         bg_out = rng.random() < 0.35
         # C10 ("plain or BGZF, any number of blocks"): now and then an output of several BGZF blocks (> 64 KiB of text),
         # where virtual offsets are not byte counts
-        big = prop == "C10" and (it in (1, n // 2) or rng.random() < 0.03)
+        big = it in (1, n // 2) or (prop == "C10" and rng.random() < 0.03)
         if big:
             more = []
-            for k in range(len(lines), 450):
+            for k in range(len(lines), 450 if prop == "C10" else 1100):
                 w = gen.walk(rng, g, adj, maxsteps=5)
                 if len({g.seg(nm)["SN"] for nm, o in w if g.seg(nm)["SR"] == 0}) > 1:
                     continue
                 more.append(gen.walk_record(rng, g, w, "r%d" % k, canonical=False))
-            lines = [l + "\tzz:Z:" + "pad" * rng.randint(30, 70) for l in lines + more]
-            bg_out = True
+            lines = [l + "\tzz:Z:" + "pad" * rng.randint(30, 70) for l in lines + more] if prop == "C10" else lines + more
+            bg_out = True if prop == "C10" else bg_out
+            ck.count("big-file")
         outind = "custom.idx" if rng.random() < 0.2 else None
         gfa_text = g.text(with_seq=False)
         obs = runner.run(gfa_text, lines, bg_in, bg_out, outind)
@@ -277,6 +280,8 @@ def files(ck, prop, tmp, n):
         ck.count("records:%s" % ("1" if len(lines) == 1 else "2-9" if len(lines) < 10 else "10-59" if len(lines) < 60 else "60+"))
         ck.count("in:%s out:%s" % ("bgzf" if bg_in else "plain", "bgzf" if bg_out else "plain"))
         ck.count("unknown-present" if "unknown" in sns else "unknown-absent")
+        if set(sns) == {"unknown"}:
+            ck.count("only-unknown-records")
         if bg_out and obs["outcome"] == "ok":
             ck.count("bgzf-output-blocks:%s" % min(3, len({o >> 16 for o in obs["offs"]})))
         if not r["valid"]:
